@@ -125,7 +125,12 @@ where
         }
         (_, _, Some(quic_config)) => {
             let client_server = new_quic_outbound(&config.host, config.port, codec, quic_config).await?;
-            relay_tcp(local_client, client_server).await
+            let (res, client_server) = relay_tcp_then(local_client, client_server).await;
+            // dropping the last handle closes the QUIC connection at once: let the server acknowledge what was sent first
+            if let Some(client_server) = client_server {
+                let _ = time::timeout(Duration::from_secs(5), client_server.into_inner().close()).await;
+            }
+            res
         }
         (None, Some(ws_config), None) => {
             let client_server = new_ws_outbound(&config.host, config.port, codec, ws_config).await?;
@@ -145,34 +150,44 @@ where
 async fn relay_tcp<I, O>(local_client: I, client_server: O) -> relay::Result
 where
     I: Sink<BytesMut, Error = anyhow::Error> + Stream<Item = Result<BytesMut>>,
-    O: Sink<BytesMut, Error = anyhow::Error> + Stream<Item = Result<BytesMut>>,
+    O: Sink<BytesMut, Error = anyhow::Error> + Stream<Item = Result<BytesMut>> + Unpin,
+{
+    relay_tcp_then(local_client, client_server).await.0
+}
+
+/// Relay until either direction ends; hands the outbound back (when both halves are still there) for an orderly close
+async fn relay_tcp_then<I, O>(local_client: I, client_server: O) -> (relay::Result, Option<O>)
+where
+    I: Sink<BytesMut, Error = anyhow::Error> + Stream<Item = Result<BytesMut>>,
+    O: Sink<BytesMut, Error = anyhow::Error> + Stream<Item = Result<BytesMut>> + Unpin,
 {
     let (c_l, l_c) = local_client.split();
-    let (mut c_s, s_c) = client_server.split();
+    let (mut c_s, mut s_c) = client_server.split();
     // open the tunnel right away (the request header travels with an empty first message):
     // a target that speaks first (SSH, SMTP, ...) would otherwise never be dialled
     if let Err(e) = c_s.send(BytesMut::new()).await {
-        return relay::Result::Err(End::Client, End::Server, e);
+        return (relay::Result::Err(End::Client, End::Server, e), None);
     }
 
     let l_c_s = async {
-        match l_c.forward(c_s).await {
+        match l_c.forward(&mut c_s).await {
             Ok(_) => Err::<(), _>(relay::Result::Close(End::Local, End::Client)),
             Err(e) => Err(relay::Result::Err(End::Local, End::Client, e)),
         }
     };
 
     let s_c_l = async {
-        match s_c.forward(c_l).await {
+        match (&mut s_c).forward(c_l).await {
             Ok(_) => Err::<(), _>(relay::Result::Close(End::Server, End::Client)),
             Err(e) => Err(relay::Result::Err(End::Server, End::Client, e)),
         }
     };
 
-    match tokio::try_join!(l_c_s, s_c_l) {
+    let res = match tokio::try_join!(l_c_s, s_c_l) {
         Ok(_) => unreachable!("should never reach here"),
         Err(e) => e,
-    }
+    };
+    (res, c_s.reunite(s_c).ok())
 }
 
 pub async fn transfer_udp<Context, NewContext, Key, NewKey, Out, NewOut, ToOutSend, ToInRecv, OutRecv, OutSend>(
